@@ -61,8 +61,8 @@ theorem Pushed.scrRet_mem {P : Prog} {c : Cfg} {ins : Instr} {pushed : List Inst
     all_goals grind
 
 theorem ready_of_step {P : Prog} (c : Cfg) (s : Nat) :
-    ((outCfg (step P c)).A.scr s).ready = (c.A.scr s).ready ∨
-    (((outCfg (step P c)).A.scr s).ready = true ∧
+    ((sOutCfg (step P c)).A.scr s).ready = (c.A.scr s).ready ∨
+    (((sOutCfg (step P c)).A.scr s).ready = true ∧
       ∃ ret key rest, c.code = .scrRet s .setup ret key :: rest ∧ ret ≠ .failBefore) := by
   rw [(step_screens P c).1]
   unfold Cfg.scrAfter
@@ -115,14 +115,14 @@ theorem SetupInv_dlv {c : Cfg} (h : SetupInv c) : SetupInv c.dlv := by
   · simpa using h.log
 
 
-theorem SetupInv_step {P : Prog} {c : Cfg} (hi : Imm c) (h : SetupInv c) : SetupInv (outCfg (step P c)) := by
-  have hl : c.log <:+ (outCfg (step P c)).log := (step_grow P c).2
+theorem SetupInv_step {P : Prog} {c : Cfg} (hi : Imm c) (h : SetupInv c) : SetupInv (sOutCfg (step P c)) := by
+  have hl : c.log <:+ (sOutCfg (step P c)).log := (step_grow P c).2
   have hcb := (step_screens P c).2
   rcases hc : c.code with _ | ⟨ins, rest⟩
   · rw [step_nil P c hc]; exact h
   · obtain ⟨pushed, ⟨suf, hcd, hsuf⟩, hp⟩ := step_code P c ins rest hc
     -- a `setup` invocation executed by this step is in the new log
-    have hnow : ∀ s a k, ins = .callScr s .setup a k → SetupSeen (outCfg (step P c)).log s := by
+    have hnow : ∀ s a k, ins = .callScr s .setup a k → SetupSeen (sOutCfg (step P c)).log s := by
       intro s a k hins
       rw [← SetupSeen_cbLog, hcb]
       exact ⟨a, k, by simp [Cfg.cbEvs, hc, hins]⟩
@@ -255,8 +255,8 @@ theorem DrawLogInv_dlv {c : Cfg} (h : DrawLogInv c) : DrawLogInv c.dlv := by
     exact ⟨args, h'.mono hl⟩
   · simpa using h.log
 
-theorem DrawLogInv_step {P : Prog} {c : Cfg} (hi : Imm c) (h : DrawLogInv c) : DrawLogInv (outCfg (step P c)) := by
-  have hl : c.log <:+ (outCfg (step P c)).log := (step_grow P c).2
+theorem DrawLogInv_step {P : Prog} {c : Cfg} (hi : Imm c) (h : DrawLogInv c) : DrawLogInv (sOutCfg (step P c)) := by
+  have hl : c.log <:+ (sOutCfg (step P c)).log := (step_grow P c).2
   have hcb := (step_screens P c).2
   rcases hc : c.code with _ | ⟨ins, rest⟩
   · rw [step_nil P c hc]; exact h
